@@ -461,6 +461,28 @@ def catch_clause(model, rep, funcs):
     rep.floor("CATCH", 2, "(loader re-raise + simulator clipping)")
 
 
+def selection_clause(model, rep, funcs):
+    """corner_safe=True selects the diagonal-sized window (prepare_affine_cornersafe), False the tight one."""
+    from ..match import Matcher
+    try:
+        f = model.func("acryo/loader/_loader.py::SubtomogramLoader.construct_loading_tasks")
+    except Exception:
+        return
+    M = Matcher(f)
+    rep.instance("SLOT.crop", f.loc())
+    good = ["if self.corner_safe:\n    $p = _utils.prepare_affine_cornersafe\nelse:\n    $p = _utils.prepare_affine",
+            "$p = _utils.prepare_affine_cornersafe if self.corner_safe else _utils.prepare_affine",
+            "$p = _utils.prepare_affine if not self.corner_safe else _utils.prepare_affine_cornersafe"]
+    bad = ["if self.corner_safe:\n    $p = _utils.prepare_affine\nelse:\n    $p = _utils.prepare_affine_cornersafe",
+           "$p = _utils.prepare_affine if self.corner_safe else _utils.prepare_affine_cornersafe"]
+    ok = True if any(M.has(g) for g in good) else (False if any(M.has(b) for b in bad) else None)
+    b: dict = {}
+    used = any(M.has(g, b) for g in good) and M.has("$p($$img, ...)", b) if ok else None
+    rep.ob("SLOT", f.anchor, "corner_safe=True crops the window that contains the rotated box's corners (prepare_affine_cornersafe), False the tight window", ok,
+           "" if ok else "the two crop-preparation functions are selected by the opposite value of corner_safe (or the selection was not recognised)", node=f.node, fn=f,
+           clause="5 slots", stmt="corner_safe selection")
+
+
 def check(model, rep, tier):
     rep.decided += ["C02.1 window algebra of prepare_affine/prepare_affine_cornersafe and padding identity of make_slice_and_pad",
                     "C02.2 raise-guards are the exact complement of 'window overlaps the axis' (no empty slice, no spurious error)",
@@ -476,3 +498,4 @@ def check(model, rep, tier):
     loader_clause(model, rep, funcs)
     crop_call_clause(model, rep, funcs)
     catch_clause(model, rep, funcs)
+    selection_clause(model, rep, funcs)
